@@ -263,6 +263,15 @@ def run(ctx):
             if rng.random() < 0.5:
                 data0 = b"BBCD" + data0
             data, labs = data0, ["random"]
+        elif n % 25 in (1, 2, 3):
+            # hand-packed tiny pictures/fragments with degenerate slice and transform parameters (zero slice
+            # budgets, zero counts, invalid indices), sometimes mutated further
+            import common
+            lab, data = common.degenerate_stream(rng)
+            labs = ["degenerate"]
+            if rng.random() < 0.3:
+                data, lab2 = byte_mutation(data, rng)
+                labs.append(lab2)
         else:
             cfg, major, level, units = rng.choice(bases)
             data, _ = assemble(units)
